@@ -148,7 +148,7 @@ package gtfs
 //@ pure func agencyElem(p *Agency, agencies []Agency) bool = p != nil && obj(p) == obj(agencies) && off(agencies) <= idx(p) && idx(p) < off(agencies) + len(agencies) && p == &agencies[idx(p) - off(agencies)]
 // the route a routes.txt row is transcribed to (C01), with the GTFS colour defaults (C10) and the agency rule (C03):
 // the agency named by agency_id, or the only agency when the cell is blank
-//@ pure func routeFaithful(e Route, f *csv.File, agencies []Agency) bool = e.Id == col(f, "route_id") && agencyElem(e.Agency, agencies) && (col(f, "agency_id") != "" ==> e.Agency.Id == col(f, "agency_id")) && (col(f, "agency_id") == "" ==> len(agencies) == 1 && e.Agency == &agencies[0]) && e.Color == orDefault(col(f, "route_color"), "FFFFFF") && e.TextColor == orDefault(col(f, "route_text_color"), "000000") && e.ShortName == col(f, "route_short_name") && e.LongName == col(f, "route_long_name") && e.Description == col(f, "route_desc") && e.Url == col(f, "route_url") && e.Type == parseRouteType_GTFSStatic(col(f, "route_type")) && e.ContinuousPickup == parsePickupDropOffPolicy(col(f, "continuous_pickup")) && e.ContinuousDropOff == parsePickupDropOffPolicy(col(f, "continuous_drop_off")) && (col(f, "route_sort_order") == "" ==> e.SortOrder == nil)
+//@ pure func routeFaithful(e Route, f *csv.File, agencies []Agency) bool = e.Id == col(f, "route_id") && agencyElem(e.Agency, agencies) && (col(f, "agency_id") != "" ==> e.Agency.Id == col(f, "agency_id")) && (col(f, "agency_id") == "" ==> len(agencies) == 1 && e.Agency == &agencies[0]) && e.Color == orDefault(col(f, "route_color"), "FFFFFF") && e.TextColor == orDefault(col(f, "route_text_color"), "000000") && e.ShortName == col(f, "route_short_name") && e.LongName == col(f, "route_long_name") && e.Description == col(f, "route_desc") && e.Url == col(f, "route_url") && e.Type == parseRouteType_GTFSStatic(col(f, "route_type")) && e.ContinuousPickup == parsePickupDropOffPolicy(col(f, "continuous_pickup")) && e.ContinuousDropOff == parsePickupDropOffPolicy(col(f, "continuous_drop_off")) && sortOrderCell(e.SortOrder, col(f, "route_sort_order"))
 
 //@ func parseRoutes
 //@   props C01 C03 C05 C08 C09 C10
@@ -185,8 +185,36 @@ package gtfs
 //@   ensures len(result) == 0 <==> len(csv.missingRequiredColumns) == 0
 //@   ensures csvOK(csv)
 
+// an optional numeric cell: absent when blank or unparseable, otherwise exactly the number written (C01, C10)
+//@ pure func floatCell(p *float64, s string) bool = ((s == "" || !floatOK(trimSpace(s))) ==> p == nil) && ((s != "" && floatOK(trimSpace(s))) ==> p != nil && *p == floatVal(trimSpace(s)))
+//@ pure func int32Cell(p *int32, s string) bool = (!int32OK(s) ==> p == nil) && (int32OK(s) ==> p != nil && *p == int32Val(s))
+//@ pure func sortOrderCell(p *int32, s string) bool = (!atoiOK(s) ==> p == nil) && ((atoiOK(s) && -2147483648 <= atoiVal(s) && atoiVal(s) <= 2147483647) ==> p != nil && *p == atoiVal(s))
+// Number decoders (C01: "decimal numbers exactly"). strconv is assumed (functions of the text and of the bit size /
+// base given at the call); what is proved is that the cell is handed over as written (modulo TrimSpace for floats),
+// at full width, and that an unparseable or blank cell yields no value.
+//@ func parseFloat64
+//@   props C01 C05 C10
+//@   ensures [blank-is-absent] s == "" ==> result == nil
+//@   ensures [number-at-full-precision] s != "" && floatOK(trimSpace(s)) ==> result != nil && fresh(result) && *result == floatVal(trimSpace(s))
+//@   ensures [unparseable-is-absent] !floatOK(trimSpace(s)) ==> result == nil
+//@   assigns nothing
+
+//@ func parseInt32
+//@   props C01 C05 C10
+//@   ensures [blank-is-absent] s == "" ==> result == nil
+//@   ensures [number] int32OK(s) ==> result != nil && fresh(result) && *result == int32Val(s)
+//@   ensures [unparseable-is-absent] !int32OK(s) ==> result == nil
+//@   assigns nothing
+
+//@ func parseRouteSortOrder
+//@   props C01 C05 C10
+//@   ensures [blank-is-absent] raw == "" ==> result == nil
+//@   ensures [small-number] atoiOK(raw) && -2147483648 <= atoiVal(raw) && atoiVal(raw) <= 2147483647 ==> result != nil && fresh(result) && *result == atoiVal(raw)
+//@   ensures [unparseable-is-absent] !atoiOK(raw) ==> result == nil
+//@   assigns nothing
+
 // the stop a stops.txt row is transcribed to (C01; location_type default depends on parent_station, C10)
-//@ pure func stopFaithful(e Stop, f *csv.File) bool = e.Id == col(f, "stop_id") && e.Code == col(f, "stop_code") && e.Name == col(f, "stop_name") && e.Description == col(f, "stop_desc") && e.ZoneId == col(f, "zone_id") && e.Url == col(f, "stop_url") && e.Timezone == col(f, "stop_timezone") && e.PlatformCode == col(f, "platform_code") && e.Type == parseStopType(col(f, "location_type"), col(f, "parent_station") != "") && e.WheelchairBoarding == parseWheelchairBoarding(col(f, "wheelchair_boarding")) && e.Parent == nil && (col(f, "stop_lon") == "" ==> e.Longitude == nil) && (col(f, "stop_lat") == "" ==> e.Latitude == nil)
+//@ pure func stopFaithful(e Stop, f *csv.File) bool = e.Id == col(f, "stop_id") && e.Code == col(f, "stop_code") && e.Name == col(f, "stop_name") && e.Description == col(f, "stop_desc") && e.ZoneId == col(f, "zone_id") && e.Url == col(f, "stop_url") && e.Timezone == col(f, "stop_timezone") && e.PlatformCode == col(f, "platform_code") && e.Type == parseStopType(col(f, "location_type"), col(f, "parent_station") != "") && e.WheelchairBoarding == parseWheelchairBoarding(col(f, "wheelchair_boarding")) && e.Parent == nil && floatCell(e.Longitude, col(f, "stop_lon")) && floatCell(e.Latitude, col(f, "stop_lat"))
 //@ pure func stopAppended(stops []Stop, n0 int, parentStopIds []string, f *csv.File) bool = len(stops) == n0 + 1 && stopFaithful(stops[len(stops) - 1], f) && parentStopIds[len(stops) - 1] == col(f, "parent_station")
 // p is nil or the very element of stops at some index (C03)
 //@ pure func nilOrElement(p *Stop, stops []Stop) bool = p == nil || (obj(p) == obj(stops) && off(stops) <= idx(p) && idx(p) < off(stops) + len(stops) && p == &stops[idx(p) - off(stops)])
@@ -224,7 +252,7 @@ package gtfs
 //@ pure func stopElem(p *Stop, stops []Stop) bool = p != nil && obj(p) == obj(stops) && off(stops) <= idx(p) && idx(p) < off(stops) + len(stops) && p == &stops[idx(p) - off(stops)]
 // a transfers.txt row is accepted iff both required cells are present, both stops exist and they differ (C09)
 //@ pure func trAccepted(f *csv.File, m ?) bool = col(f, "from_stop_id") != "" && col(f, "to_stop_id") != "" && has(m, col(f, "from_stop_id")) && has(m, col(f, "to_stop_id")) && col(f, "from_stop_id") != col(f, "to_stop_id")
-//@ pure func trFaithful(e Transfer, f *csv.File, m ?) bool = e.From == m[col(f, "from_stop_id")] && e.To == m[col(f, "to_stop_id")] && e.Type == parseTransferType(col(f, "transfer_type")) && (col(f, "min_transfer_time") == "" ==> e.MinTransferTime == nil)
+//@ pure func trFaithful(e Transfer, f *csv.File, m ?) bool = e.From == m[col(f, "from_stop_id")] && e.To == m[col(f, "to_stop_id")] && e.Type == parseTransferType(col(f, "transfer_type")) && int32Cell(e.MinTransferTime, col(f, "min_transfer_time"))
 //@ pure func trAppended(ts []Transfer, n0 int, f *csv.File, m ?) bool = len(ts) == n0 + 1 && trFaithful(ts[len(ts) - 1], f, m)
 
 //@ func parseTransfers
@@ -350,7 +378,7 @@ package gtfs
 // non-blank and both references resolve (C09 lists exactly these causes of rejection)
 //@ pure func stRowAccepted(f *csv.File, idToStop ?, idToTrip ?) bool = (gtfsTimeOK(col(f, "arrival_time")) || gtfsTimeOK(col(f, "departure_time"))) && atoiOK(col(f, "stop_sequence")) && col(f, "stop_id") != "" && col(f, "stop_sequence") != "" && col(f, "trip_id") != "" && idToStop[col(f, "stop_id")] != nil && idToTrip[col(f, "trip_id")] != nil
 // the stop time a row is transcribed to (C01), with the GTFS defaults and the one-sided time rule (C10)
-//@ pure func stFaithful(e ScheduledStopTime, f *csv.File, idToStop ?) bool = e.Stop == idToStop[col(f, "stop_id")] && e.Headsign == col(f, "stop_headsign") && e.StopSequence == atoiVal(col(f, "stop_sequence")) && e.ArrivalTime == (gtfsTimeOK(col(f, "arrival_time")) ? gtfsTimeVal(col(f, "arrival_time")) : gtfsTimeVal(col(f, "departure_time"))) && e.DepartureTime == (gtfsTimeOK(col(f, "departure_time")) ? gtfsTimeVal(col(f, "departure_time")) : gtfsTimeVal(col(f, "arrival_time"))) && e.PickupType == parsePickupDropOffPolicy(orDefault(col(f, "pickup_type"), "0")) && e.DropOffType == parsePickupDropOffPolicy(orDefault(col(f, "drop_off_type"), "0")) && e.ContinuousPickup == parsePickupDropOffPolicy(col(f, "continuous_pickup")) && e.ContinuousDropOff == parsePickupDropOffPolicy(col(f, "continuous_drop_off")) && e.ExactTimes == (orDefault(col(f, "timepoint"), "1") == "1") && (col(f, "shape_dist_traveled") == "" ==> e.ShapeDistanceTraveled == nil)
+//@ pure func stFaithful(e ScheduledStopTime, f *csv.File, idToStop ?) bool = e.Stop == idToStop[col(f, "stop_id")] && e.Headsign == col(f, "stop_headsign") && e.StopSequence == atoiVal(col(f, "stop_sequence")) && e.ArrivalTime == (gtfsTimeOK(col(f, "arrival_time")) ? gtfsTimeVal(col(f, "arrival_time")) : gtfsTimeVal(col(f, "departure_time"))) && e.DepartureTime == (gtfsTimeOK(col(f, "departure_time")) ? gtfsTimeVal(col(f, "departure_time")) : gtfsTimeVal(col(f, "arrival_time"))) && e.PickupType == parsePickupDropOffPolicy(orDefault(col(f, "pickup_type"), "0")) && e.DropOffType == parsePickupDropOffPolicy(orDefault(col(f, "drop_off_type"), "0")) && e.ContinuousPickup == parsePickupDropOffPolicy(col(f, "continuous_pickup")) && e.ContinuousDropOff == parsePickupDropOffPolicy(col(f, "continuous_drop_off")) && e.ExactTimes == (orDefault(col(f, "timepoint"), "1") == "1") && floatCell(e.ShapeDistanceTraveled, col(f, "shape_dist_traveled"))
 
 // what one loop iteration does to trip T (athead(3, ·): at the start of the iteration)
 //@ pure func stAppended(T *ScheduledTrip, f *csv.File, idToStop ?) bool = len(T.StopTimes) == athead(3, len(T.StopTimes)) + 1 && stFaithful(T.StopTimes[len(T.StopTimes) - 1], f, idToStop)
@@ -406,12 +434,21 @@ package gtfs
 //@   comparator shapes[i].ID < shapes[j].ID
 //@   assigns nothing
 
+// a shapes.txt row is accepted iff its four required cells are present and latitude, longitude and sequence parse
+// (C09); it is appended to the rows of its shape with exactly the numbers written (C01)
+//@ pure func shAccepted(f *csv.File) bool = col(f, "shape_id") != "" && col(f, "shape_pt_lat") != "" && col(f, "shape_pt_lon") != "" && col(f, "shape_pt_sequence") != "" && floatOK(trimSpace(col(f, "shape_pt_lat"))) && floatOK(trimSpace(col(f, "shape_pt_lon"))) && int32OK(col(f, "shape_pt_sequence"))
+//@ pure func shRowFaithful(r ShapeRow, f *csv.File) bool = r.ShapePtLat == floatVal(trimSpace(col(f, "shape_pt_lat"))) && r.ShapePtLon == floatVal(trimSpace(col(f, "shape_pt_lon"))) && r.ShapePtSequence == int32Val(col(f, "shape_pt_sequence")) && floatCell(r.ShapeDistTraveled, col(f, "shape_dist_traveled"))
+//@ pure func shPrefixKept(m ?, id string) bool = forall j int :: 0 <= j && j < athead(1, has(m, id) ? len(m[id]) : 0) ==> m[id][j] == athead(1, m[id][j])
+//@ pure func shAppended(m ?, id string, f *csv.File) bool = has(m, id) && len(m[id]) == athead(1, has(m, id) ? len(m[id]) : 0) + 1 && shRowFaithful(m[id][len(m[id]) - 1], f)
 //@ func parseShapes
 //@   props C01 C05 C08 C09
 //@   requires csvOK(csv)
 //@   ensures [shapes-ordered-by-id] forall a int, b int :: 0 <= a && a < b && b < len(result) ==> result[a].ID <= result[b].ID
 //@   loop 1 invariant csvOK(csv) && shapeIDToRowData != nil && fresh(shapeIDToRowData) && shapeIDToRowData != csv.headerMap
 //@   loop 1 invariant forall s string :: has(shapeIDToRowData, s) ==> fresh(shapeIDToRowData[s])
+//@   loop 1 step [accepted-row-is-appended-to-its-shape] shAccepted(csv) ==> shAppended(shapeIDToRowData, col(csv, "shape_id"), csv)
+//@   loop 1 step [earlier-rows-of-the-shape-kept] shAccepted(csv) ==> shPrefixKept(shapeIDToRowData, col(csv, "shape_id"))
+//@   loop 1 step [other-shapes-untouched] forall k string :: (k != col(csv, "shape_id") || !shAccepted(csv)) ==> has(shapeIDToRowData, k) == athead(1, has(shapeIDToRowData, k)) && shapeIDToRowData[k] == athead(1, shapeIDToRowData[k])
 //@   loop 1 decreases remaining(csv.csvReader)
 //@   loop 2 invariant fresh(shapes)
 //@   loop 2 step [points-follow-the-rows-sorted-by-sequence] len(shapes) == athead(2, len(shapes)) + 1 && shapes[len(shapes) - 1].ID == shapeID && len(shapes[len(shapes) - 1].Points) == len(rows) && (forall k int :: 0 <= k && k < len(rows) ==> shapes[len(shapes) - 1].Points[k].Latitude == rows[k].ShapePtLat && shapes[len(shapes) - 1].Points[k].Longitude == rows[k].ShapePtLon && shapes[len(shapes) - 1].Points[k].Distance == rows[k].ShapeDistTraveled)
